@@ -34,6 +34,20 @@ theorem eval_inv (I : St → Prop) (trig : Trig)
   | mrem m k => intro st hi; exact hrem st m k hi
   | mclr m => intro st hi; exact hclr st m hi
   | mgetLog m k => intro st hi; exact hlog st _ hi
+  | mxf m k f =>
+    intro st hi
+    simp only [eval]
+    rcases xfM_cases st m k f with ⟨v2, _, h⟩ | ⟨v, _, _, h⟩ | ⟨_, _, h⟩
+    · rw [h]; exact hupd st m k v2 hi
+    · rw [h]; exact hrem st m k hi
+    · rw [h]; exact hi
+  | mwithLog m k => intro st hi; exact hlog st _ hi
+  | remMulti m keys =>
+    intro st hi
+    simp only [eval]
+    induction keys generalizing st with
+    | nil => exact hi
+    | cons k rest ih => exact hseq _ _ (hrem st m k hi) ih
   | fby a b iha ihb => intro st hi; exact hseq _ _ (iha st hi) ihb
   | athen a b iha ihb => intro st hi; exact hseq _ _ (iha st hi) ihb
   | snd b ih => intro st hi; exact ih st hi
@@ -67,6 +81,8 @@ def mods : H → List Nat
   | .mupd m _ _ => [mid m]
   | .mrem m _ => [mid m]
   | .mclr m => [mid m]
+  | .mxf m _ _ => [mid m]
+  | .remMulti m _ => [mid m]
   | .fby a b => mods a ++ mods b
   | .athen a b => mods a ++ mods b
   | .snd b => mods b
@@ -100,6 +116,21 @@ theorem eval_outcome (Bad : Err → Prop) (G : Nat → Prop) (trig : Trig)
   | mrem m k => intro st hg e he; exact ht _ (hg _ (by simp [mods])) _ e he
   | mclr m => intro st hg e he; exact ht _ (hg _ (by simp [mods])) _ e he
   | mgetLog m k => intro st _ e he; simp [eval] at he
+  | mxf m k f =>
+    intro st hg e he
+    simp only [eval] at he
+    split at he
+    · exact ht _ (hg _ (by simp [mods])) _ e he
+    · simp at he
+  | mwithLog m k => intro st _ e he; simp [eval] at he
+  | remMulti m keys =>
+    intro st hg
+    simp only [eval]
+    induction keys generalizing st with
+    | nil => intro e he; simp [evalRem] at he
+    | cons k rest ih =>
+      exact hseq _ _ (fun e he => ht _ (hg _ (by simp [mods])) _ e he)
+        (fun s => ih s (fun j hj => hg j (by simpa [mods] using hj)))
   | fby a b iha ihb =>
     intro st hg
     exact hseq _ _ (iha st (fun j hj => hg j (by simp [mods, hj])))
